@@ -155,19 +155,36 @@ static void st_case(uint64_t i, void *ctx)
 }
 
 /* ------------------------------------------------------------------ (1d) a re-opened listener, and reading at end of file */
-static void ro_desc(uint64_t i, void *ctx, char *b, size_t n) { (void) ctx; snprintf(b, n, i ? "listener / client open / accept / send \"hello\" / close(client) / recv = \"hello\" / recv again at end of file / the accepted object still owns its descriptor"
+static void ro_desc(uint64_t i, void *ctx, char *b, size_t n) { (void) ctx;
+    if (i == 2) { snprintf(b, n, "set_nbio on the listener before it is opened (refused) / listener open / client open / accept / the client sends \"hello\" 100 ms later from another process / recv on the accepted socket"); return; }
+    if (i == 3) { snprintf(b, n, "listener and client built from URL objects whose path was replaced with set_path() after parsing (no unparse): the listener binds the path the URL's components name, the client reaches it, \"hello\" arrives"); return; }
+    snprintf(b, n, i ? "listener / client open / accept / send \"hello\" / close(client) / recv = \"hello\" / recv again at end of file / the accepted object still owns its descriptor"
                                                                                        : "listener open / set_nbio / close / open again (a new, blocking descriptor) / client open / accept / the client sends \"hello\" 100 ms later from another process / recv on the accepted socket"); }
 static void ro_case(uint64_t i, void *ctx)
 {
-    (void) ctx; const char *shape = i ? "reading again at end of file" : "listener closed and opened again"; mc_set_shape(shape);
+    (void) ctx; const char *shape = i == 3 ? "sockets from URL objects edited after parsing" : (i == 2 ? "set_nbio refused before open" : (i ? "reading again at end of file" : "listener closed and opened again")); mc_set_shape(shape);
     setpath(); int fd0 = lowest_free_fd(); unlink(g_path);
-    spif_socket_t L = mk_listener(), C = mk_client(), A = NULL; spif_str_t data = spif_str_new_from_ptr((spif_charptr_t) "hello"), got = NULL; pid_t kid = 0;
+    spif_socket_t L = NULL, C = NULL, A = NULL; spif_str_t data = spif_str_new_from_ptr((spif_charptr_t) "hello"), got = NULL; pid_t kid = 0; char other[300] = "";
+    if (i == 3) {        /* the text says <path>-text, the components say <path> */
+        snprintf(other, sizeof other, "%s-text", g_path); unlink(other);
+        char t[320]; snprintf(t, sizeof t, "unix:%s", other);
+        spif_url_t u1 = spif_url_new_from_ptr((spif_charptr_t) t), u2 = spif_url_new_from_ptr((spif_charptr_t) t);
+        spif_url_set_path(u1, spif_str_new_from_ptr((spif_charptr_t) g_path)); spif_url_set_path(u2, spif_str_new_from_ptr((spif_charptr_t) g_path));
+        L = spif_socket_new_from_urls(u1, (spif_url_t) NULL); C = spif_socket_new_from_urls((spif_url_t) NULL, u2); spif_url_del(u1); spif_url_del(u2);
+    } else { L = mk_listener(); C = mk_client(); }
+    if (i == 2 && L && spif_socket_set_nbio(L)) FAIL("spif_socket_set_nbio", "model:return", shape, "set_nbio on a socket without a descriptor returned TRUE");
     if (!L || !C || !spif_socket_open(L)) { FAIL("spif_socket_open", "model:return", shape, "listener could not be opened"); goto out; }
+    if (i == 3) { struct stat sb; if (stat(g_path, &sb) || !S_ISSOCK(sb.st_mode)) FAIL("spif_socket_open", "model:bound-address", shape, "no socket at the path the URL's components name"); if (!stat(other, &sb)) FAIL("spif_socket_open", "model:bound-address", shape, "the listener was bound to the path of the URL's stale text"); }
     if (!i) { spif_socket_set_nbio(L); if (!spif_socket_close(L)) FAIL("spif_socket_close", "model:return", shape, "close failed"); unlink(g_path); if (!spif_socket_open(L)) { FAIL("spif_socket_open", "model:return", shape, "the closed listener could not be opened again"); goto out; } }
     if (!spif_socket_open(C)) { FAIL("spif_socket_open", "model:return", shape, "client could not connect"); goto out; }
     A = spif_socket_accept(L);
     if (!A) { FAIL("spif_socket_accept", "model:return", shape, "accept returned NULL"); goto out; }
-    if (!i) {
+    if (i == 3) {
+        if (!spif_socket_send(C, data)) FAIL("spif_socket_send", "model:return", shape, "send failed");
+        spif_socket_close(C);
+        got = spif_socket_recv(A);
+        if (!got || !got->s || strcmp((char *) got->s, "hello")) FAIL("spif_socket_recv", "model:bytes-differ", shape, "received \"%.20s\" instead of \"hello\"", got && got->s ? (char *) got->s : "(nothing)");
+    } else if (!i || i == 2) {
         fflush(NULL); kid = fork();
         if (kid == 0) { usleep(100000); _exit(spif_socket_send(C, data) ? 0 : 3); }
         spif_socket_close(C);          /* the sender's copy is the only one left: its exit is the end of file */
@@ -191,7 +208,7 @@ out:
     if (A) spif_socket_del(A);
     if (C) spif_socket_del(C);
     if (L) spif_socket_del(L);
-    spif_str_del(data); unlink(g_path);
+    spif_str_del(data); unlink(g_path); if (other[0]) unlink(other);
     int fd1 = lowest_free_fd();
     if (fd1 != fd0) FAIL("spif_socket", "fd-leak", shape, "lowest free descriptor moved from %d to %d", fd0, fd1);
     mc_nontrivial();
@@ -384,7 +401,7 @@ int main(int argc, char **argv)
         mc_e2_level("transfer", g_k * 10 + g_dev, (uint64_t) NLENS * 2, tr_case, tr_desc, NULL);
         { int k = g_k, d = g_dev; mc_e2_level("storm", 300, 8, st_case, st_desc, NULL); g_k = k; g_dev = d; }
         mc_e2_level("dup_independence", 1, 2, di_case, di_desc, NULL);
-        mc_e2_level("reopen_and_eof", 1, 2, ro_case, ro_desc, NULL);
+        mc_e2_level("reopen_and_eof", 1, 4, ro_case, ro_desc, NULL);
     }
     if (!mc_arg("only", NULL) || !strcmp(mc_arg("only", ""), "lifecycle")) {
         mc_sys sys = { "lifecycle", NOPS, op_name, fresh, enabled, apply, NULL, canon, teardown, (int) mc_arg_int("lookahead", 1) };
